@@ -162,6 +162,10 @@ class World(object):
         # make everything removable first (modes like 0o000 on dirs)
         try:
             shutil.rmtree(self.scratch)
+        except RecursionError:
+            # trees deeper than the interpreter's recursion limit (C11)
+            import subprocess
+            subprocess.run(['rm', '-rf', '--', self.scratch])
         except OSError:
             for d, dirs, files in os.walk(self.scratch):
                 try:
